@@ -745,3 +745,89 @@ def engine_sites() -> str:
 
 
 ENGINE_SITES_FALLBACK = "def engine_sites : List SslSplit.EngineSite := []\n"
+
+
+# ---- how enum-valued options are compared ------------------------------------------------------------------
+MT = "direct/data/mri_transforms.py"
+
+
+def _enum_classes() -> set[str]:
+    """names of the DirectEnum subclasses (str-enums comparing equal to strings of any case) of the modules involved"""
+    names = {"DirectEnum"}
+    trees = [parse_file(REPO / rel) for rel in ("direct/types.py", SSL, MT)]
+    for _ in range(3):
+        for tree in trees:
+            for n in ast.walk(tree):
+                if isinstance(n, ast.ClassDef) and any(ast.unparse(b).split(".")[-1] in names for b in n.bases):
+                    names.add(n.name)
+    return names - {"DirectEnum"}
+
+
+def enum_compares() -> str:
+    enums = _enum_classes()
+    if "HalfSplitType" not in enums or "MaskSplitterType" not in enums:
+        raise Untranslatable("HalfSplitType / MaskSplitterType are not DirectEnum classes any more")
+
+    def member(node):
+        return isinstance(node, ast.Attribute) and isinstance(node.value, ast.Name) and node.value.id in enums
+
+    def members_in(node):
+        return [e for e in getattr(node, "elts", []) if member(e)]
+
+    rows = []
+
+    def scan_fn(qual, fn, only=None):
+        for n in ast.walk(fn):
+            if isinstance(n, ast.Compare):
+                left = n.left
+                for op, right in zip(n.ops, n.comparators):
+                    who, other = None, None
+                    if member(right):
+                        who, other = right, left
+                    elif member(left):
+                        who, other = left, right
+                    if who is not None and (only is None or who.value.id in only):
+                        sym = {ast.Eq: "==", ast.NotEq: "!=", ast.Is: "is", ast.IsNot: "is-not"}.get(type(op), type(op).__name__)
+                        rows.append((qual, f"{ast.unparse(other)} ~ {ast.unparse(who)}", sym))
+                    elif isinstance(op, (ast.In, ast.NotIn)) and members_in(right) and (
+                            only is None or any(m.value.id in only for m in members_in(right))):
+                        kind = {ast.List: "list", ast.Tuple: "tuple", ast.Set: "set"}.get(type(right), "other")
+                        rows.append((qual, f"{ast.unparse(left)} ~ {ast.unparse(right)}", ("not-in-" if isinstance(op, ast.NotIn) else "in-") + kind))
+                    elif isinstance(op, (ast.In, ast.NotIn)) and isinstance(right, ast.Dict) and any(member(k) for k in right.keys if k):
+                        rows.append((qual, f"{ast.unparse(left)} ~ dict", "in-dict"))
+                    left = right
+            elif isinstance(n, ast.Subscript) and isinstance(n.value, ast.Dict) and any(member(k) for k in n.value.keys if k):
+                if only is None or any(member(k) and k.value.id in only for k in n.value.keys if k):
+                    rows.append((qual, f"{{…}}[{ast.unparse(n.slice)}]", "dict-key"))
+            elif isinstance(n, ast.Call) and isinstance(n.func, ast.Attribute) and n.func.attr == "get" \
+                    and isinstance(n.func.value, ast.Dict) and any(member(k) for k in n.func.value.keys if k):
+                rows.append((qual, "{…}.get(…)", "dict-key"))
+            elif isinstance(n, ast.Match):
+                for c in n.cases:
+                    for p in ast.walk(c.pattern):
+                        if isinstance(p, ast.MatchValue) and member(p.value) and (only is None or p.value.value.id in only):
+                            rows.append((qual, f"{ast.unparse(n.subject)} ~ {ast.unparse(p.value)}", "match"))
+        # module-level / class-level dispatch tables keyed by members that the function indexes
+    scan = _Scan(SSL)
+    for q, fn in scan.funcs.items():
+        scan_fn(q, fn)
+    mt = parse_file(REPO / MT)
+    for n in ast.walk(mt):
+        if isinstance(n, ast.FunctionDef) and n.name == "build_mri_transforms":
+            scan_fn("build_mri_transforms", n, only={"MaskSplitterType", "HalfSplitType"})
+    # dictionaries keyed by enum members defined anywhere in ssl.py (dispatch tables)
+    for n in ast.walk(scan.tree):
+        if isinstance(n, (ast.Assign, ast.AnnAssign)) and isinstance(getattr(n, "value", None), ast.Dict) \
+                and any(member(k) for k in n.value.keys if k):
+            rows.append(("<table>", ast.unparse(n.targets[0] if isinstance(n, ast.Assign) else n.target), "dict-key"))
+    rows = _dedupe(rows)
+    if not any(q.endswith("_half_split") for q, _, _ in rows):
+        raise Untranslatable("no comparison of the direction with a HalfSplitType member found in _half_split")
+    body = ",\n   ".join(f"({_q(q)}, {_q(w)}, {_q(o)})" for q, w, o in rows)
+    return ("/-- translated from `direct/ssl/ssl.py` and `build_mri_transforms`: every test of a value against a member of a\n"
+            "`DirectEnum` (function, what is compared, operator: `==` `!=` `in-list` … go through `__eq__`; `is` is identity;\n"
+            "`in-set` / `dict-key` hash first) -/\n"
+            f"def enum_compares : List (String × String × String) :=\n  [{body}]\n")
+
+
+ENUM_COMPARES_FALLBACK = "def enum_compares : List (String × String × String) := []\n"
